@@ -42,7 +42,12 @@ Oracle clauses (signature in brackets):
       and split every line into n fields holding the cells   [columns-misaligned:<style>]
       (equal line widths are NOT demanded here: BorderUtil strips trailing blanks from every line and
       these styles have no right border - decision recorded in DESIGN.md section 4)
-  * no markup character (< > /) is visible                    [markup-shown:<where>]
+  * no markup character (< > /) is visible.  [markup-shown:tagged-cell] = every visible piece is a
+      literal <b> or </b> of a tagged cell of that column that straddles a line break of the cell,
+      i.e. the wrapping cut a tag in two (known finding, findings/c14_tag_cut_by_wrapping.md);
+      a whole tag printed on one line [markup-shown:whole-tag], anything else [markup-shown:other],
+      or columns that cannot be told apart [markup-shown:unattributed] are separate signatures.
+      The text clauses below are evaluated on the text with those literal tags taken out.
   * per column, the fields read top to bottom with blanks removed equal the column's cells'
       visible characters with blanks removed                  [cell-text-lost]
       and the lines can be cut into consecutive non-empty groups, one per row (header first), such
@@ -268,6 +273,34 @@ def _nospace(s):
     return s.replace(" ", "")
 
 
+_TAG = re.compile(r"</?b>")
+
+
+def _detag(col):
+    """col = blank-free text of one column per content line.  Literal <b> / </b> found in the text read
+    top to bottom are taken out.  -> (cleaned lines, tags that straddle a line break, tags within one line)"""
+    s = "".join(col)
+    ms = list(_TAG.finditer(s))
+    if not ms:
+        return col, 0, 0
+    owner = []
+    for i, f in enumerate(col):
+        owner.extend([i] * len(f))
+    drop = set()
+    cut = whole = 0
+    for mm in ms:
+        if owner[mm.start()] == owner[mm.end() - 1]:
+            whole += 1
+        else:
+            cut += 1
+        drop.update(range(mm.start(), mm.end()))
+    out = [[] for _ in col]
+    for k, ch in enumerate(s):
+        if k not in drop:
+            out[owner[k]].append(ch)
+    return ["".join(x) for x in out], cut, whole
+
+
 def judge(case, out1, out2, before, after, vis):
     """All violated clauses of one rendered case, as (sig, what, expected, observed)."""
     kinds, nrows, dev, header, style, ind, aligns, width, ansi, twice = case
@@ -290,11 +323,7 @@ def judge(case, out1, out2, before, after, vis):
         bad.append(("too-wide:" + style, "a line is %d wide on a %d-column terminal" % (max(map(len, wide)), width),
                     "<= %d" % width, wide[0]))
     texts = [[_nospace(row[c]) for row in vis] for c in range(n)]
-    m = _MARKUP.search(text)
-    if m:
-        where = "tagged-cell" if any("tagged" in v for row in vis for v in row) else "untagged-table"
-        bad.append(("markup-shown:" + where, "markup characters are visible in the rendered table", "visible cell text only",
-                    [l for l in lines if _MARKUP.search(l)][:3]))
+    m = _MARKUP.search(text)  # handled below, once the columns' fields are known
     fields = None
     if style in BORDERED:
         vl, hl, rx = _VL[style], _HL[style], _SEP[style]
@@ -330,29 +359,59 @@ def judge(case, out1, out2, before, after, vis):
         blank = [all(len(l) <= p or l[p] == " " for l in lines) for p in range(span)]
         starts = [p for p in range(span) if blank[p] and (p == 0 or not blank[p - 1])]
 
+        def same(f, c):  # literal tags are dealt with afterwards (_detag)
+            got = "".join(f)
+            return (_TAG.sub("", got) if m else got) == "".join(texts[c])
+
         def search(c, pos, acc):
             if c == n - 1:
                 f = [_nospace(l[pos:]) for l in content]
-                return acc + [f] if "".join(f) == "".join(texts[c]) else None
+                return acc + [f] if same(f, c) else None
             cands = ([pos] if pos < span and blank[pos] else []) + [p for p in starts if p > pos]
             for p in cands:
                 f = [_nospace(l[pos:p]) for l in content]
-                if "".join(f) == "".join(texts[c]):
+                if same(f, c):
                     got = search(c + 1, p + 1, acc + [f])
                     if got:
                         return got
             return None
 
         fields = search(0, 0, [])
-        if fields is None and not m:
-            have = sorted(_nospace("".join(content)))
+        if fields is None:
+            have = sorted(_TAG.sub("", _nospace("".join(content))) if m else _nospace("".join(content)))
             want = sorted("".join("".join(t) for t in texts))
             if have == want:
                 bad.append(("columns-misaligned:" + style, "no %d blank columns split every line into the cells' fields" % (n - 1),
                             None, lines[:6]))
             else:
                 bad.append(("cell-text-lost", "the rendered characters are not the cells' characters", "".join(want), "".join(have)))
-    if fields is not None and not m:
+    if m:
+        # Known finding 'markup-shown:tagged-cell' is exactly: every visible piece of markup is a literal
+        # <b> or </b> of a tagged cell of that column which the wrapping cut in two (it straddles a line
+        # break of the cell) - a tag standing whole on one line is always consumed by the formatter.
+        # Anything else that shows markup gets another signature.
+        shown = [l for l in lines if _MARKUP.search(l)][:3]
+        if fields is None:
+            bad.append(("markup-shown:unattributed", "markup characters are visible and the columns cannot be told apart",
+                        "visible cell text only", shown))
+        else:
+            cut = whole = stray = 0
+            for c in range(n):
+                fields[c], k, w = _detag(fields[c])
+                if (k or w) and not any("tagged" in row[c] for row in vis):
+                    stray += 1
+                cut += k
+                whole += w
+                stray += sum(1 for f in fields[c] if _MARKUP.search(f))
+            if whole:
+                bad.append(("markup-shown:whole-tag", "a complete tag is printed literally", "visible cell text only", shown))
+            elif stray or not cut:
+                bad.append(("markup-shown:other", "markup characters that are not a cut tag of a tagged cell are visible",
+                            "visible cell text only", shown))
+            else:
+                bad.append(("markup-shown:tagged-cell", "a tag of a tagged cell was cut by the wrapping and is printed literally",
+                            "visible cell text only", shown))
+    if fields is not None:
         seg = _segment(fields, texts)
         if seg:
             c = seg[1]
@@ -378,7 +437,8 @@ def run_case(case):
 def replay(case):
     case = [tuple(x) if isinstance(x, list) else x for x in case]
     vs, _ = run_case(case)
-    return vs[0] if vs else None
+    other = [v for v in vs if v["sig"] != "markup-shown:tagged-cell"]
+    return (other or vs or [None])[0]
 
 
 # ---------------------------------------------------------------------------------------------
